@@ -687,6 +687,25 @@ def check(prop, tier, only=None):
             pending = []
     write_excl(set())
 
+    # Harnesses whose *bound itself* is the property (termination of symbol evaluation): a failed
+    # recursion-unwinding assertion means the recursion is not bounded by the cap; the input
+    # space of these harnesses is a single concrete definition shape, replayed natively.
+    for h in hs:
+        r = results[h["name"]]
+        if r["outcome"] == "unwind" and h["name"].startswith("c16_equ_"):
+            vals = [[1, 0, 0, 0, 0, 0, 0, 0]]
+            rep = native_replay(h["name"], vals, "debug")
+            log("    %s recursion bound exceeded; native replay exit=%s" % (h["name"], rep["rc"]))
+            if rep["rc"] in (10, 11) or rep["rc"] < 0 or rep["rc"] in (134, 139):
+                fn = save_cex(prop, h, vals, rep, ["recursion unwinding assertion: " + r.get("detail", "")])
+                role = rep["roles"][0] if rep["roles"] else (0, 0, "norole")
+                key = finding_key(prop, h["name"], role[2])
+                if key in listed:
+                    known_hits.append((key, listed[key].get("what", "")))
+                else:
+                    violations.append((h["name"], key, fn, ["unbounded recursion (stack exhaustion in the native replay)"], rep))
+                r["outcome"] = "fail"
+
     for h in hs:
         r = results[h["name"]]
         if r["outcome"] not in ("pass", "fail"):
